@@ -423,6 +423,8 @@ def corpus(seed, ndefs, nvalues=3, tag="main", log=vlib.log, use_cache=True, ext
 
 def corpus_done(res):
     coq_cleanup(res["envname"])
+    if res.get("realname"):
+        coq_cleanup(res["realname"])
     for n in os.listdir(vlib.CORR):
         if n.startswith(res["envname"] + "_q"):
             try:
